@@ -377,6 +377,7 @@ var baseClasses = []string{
 	"ws://h:81/chat", "wss://[::1]:444/", "http://1.2.3.4/x", "http://[2001:db8::1]/", "http://xn--bcher-kva.example/ü",
 	"http://h//a//b", "http://h/a/b/c/d/", "http://h/?", "http://h/#", "sc://h?q", "sc://h#f",
 	"http://example.com/p?a&b=%41#x", "file:///d/f?x", "web+x://h/p?k=v%20w&&z", "https://h/?a=1&&b=2+3",
+	"mailto:?subject=x", "data:#top", "web+x:?q#f", "a:?", "a:#", "sc:?", "sc: ?q",
 }
 
 func (r *Rng) base() string {
@@ -438,8 +439,8 @@ func (r *Rng) setterValue(k int) string {
 }
 
 func (r *Rng) spName() string {
-	return r.Pick([]string{"a", "b", "a", "A", "", "k&", "k=", "k+", "k%", "%41", "%2B", "k k", "é", "\xff", "#", "a&b=c", "z", "aa", "a\x00", "\uE000", "\U0001F600", "?", "/", "'", "\"", "<", "`"})
+	return r.Pick([]string{"a", "b", "a", "A", "", "k&", "k=", "k+", "k%", "%41", "%2B", "k k", "é", "\xff", "#", "a&b=c", "z", "aa", "a\x00", "\uE000", "\U0001F600", "?", "/", "'", "\"", "<", "`", "\uFFFDkey", "caf\uFFFD"})
 }
 func (r *Rng) spValue() string {
-	return r.Pick([]string{"1", "2", "", "v v", "v&w", "v=w", "1+1", "100%", "%41", "%zz", "é", "\xff", "#f", "a/b?c", "\t", "'", "\"<>", "\u2028"})
+	return r.Pick([]string{"1", "2", "", "v v", "v&w", "v=w", "1+1", "100%", "%41", "%zz", "é", "\xff", "#f", "a/b?c", "\t", "'", "\"<>", "\u2028", "caf\uFFFD!", "\uFFFD"})
 }
